@@ -44,6 +44,14 @@ def configs(tier, seed):
                 for j in range(size):
                     if i != j:
                         out.append(dict(h="mislabel", op=name, key=f"mislabel/{name}/row{i}_as_row{j}", ds=name, i=i, j=j))
+        if 2 <= size <= 8 and len(DIMSETS[name]) <= 3:
+            # a frame read without a header line: one data row ended up as the column names
+            nd = len(DIMSETS[name])
+            for colorder in itertools.permutations(range(nd)):
+                for hrow in range(size):
+                    for rest in ("id", "rev"):
+                        out.append(dict(h="headerless", op=name, key=f"headerless/{name}/cols={''.join(map(str, colorder))}/header_row={hrow}/{rest}", ds=name,
+                                        colorder=list(colorder), hrow=hrow, rest=rest))
         if size <= 4:
             for perm in itertools.permutations(range(size)):
                 if perm == tuple(range(size)):
@@ -92,7 +100,7 @@ def run(cfg, w):
     L = cfg.get("L")
     # a frame in which a numeric dimension is identified through its items only is ambiguous when values coincide
     # with those items (the property's own exception): such inputs are excluded there, and explored everywhere else
-    ambiguous_layout = bool(L) and _confusable(name) and (L["header"] == "items" or (L["d2c"] is not None and any(isinstance(i, (int, float)) for i in spec[L["d2c"][1]][2])))
+    ambiguous_layout = (h == "headerless" and _confusable(name)) or bool(L) and _confusable(name) and (L["header"] == "items" or (L["d2c"] is not None and any(isinstance(i, (int, float)) for i in spec[L["d2c"][1]][2])))
     dims, X, x = _arr(w, name, no_confusion=ambiguous_layout, fortran=bool(cfg.get("fortran")))
     if h == "to_df":
         d2c = None if cfg["d2c"] is None else spec[cfg["d2c"]][1]
@@ -137,6 +145,25 @@ def run(cfg, w):
                 w.ob(f"doubled_labels_refused{sorted(kw)}", False, info="returned although two rows carry the same labels")
             except Exception:
                 w.ob(f"doubled_labels_refused{sorted(kw)}", True)
+        w.ob_arr_eq("array_unchanged", x.values, X)
+        return
+    if h == "headerless":
+        df = x.to_df(index=False)
+        names = [sp[1] for sp in spec]
+        df = df[[names[i] for i in cfg["colorder"]] + ["value"]]
+        header = list(df.iloc[cfg["hrow"]])
+        body = df.drop(index=cfg["hrow"])
+        if cfg["rest"] == "rev":
+            body = body.iloc[::-1]
+        body = body.reset_index(drop=True)
+        body.columns = header
+        try:
+            y = FlodymArray.from_df(dims=build_dims(name), df=body)
+        except Exception as e:
+            w.ob("import_returns_for_headerless_frame", False, info=f"{type(e).__name__}: {str(e)[:200]}")
+            return
+        for idx in np.ndindex(*dims.shape):
+            w.ob(f"entry{list(idx)}", w.same(y.values[idx], X[idx]))
         w.ob_arr_eq("array_unchanged", x.values, X)
         return
     if h == "rowperm":
